@@ -17,6 +17,7 @@ import (
 	"fmt"
 	"hash/fnv"
 	"sort"
+	"strings"
 	"sync"
 	"testing"
 	"time"
@@ -74,9 +75,9 @@ type counters struct {
 	vapiSub   int               // target's extra ValidatorAPI subscriber: VC submission passed verification
 	exBcast   int               // target's ParSigEx.Broadcast invoked: reaches other peers
 	out       int               // network envelopes sent by the target
-	aggCalls  int               // target's SigAgg.Aggregate invoked: reaches aggregation
-	aggOut    int               // target's extra SigAgg subscriber: aggregate produced
-	bcast     int               // any node's broadcaster got a signed object
+	aggCalls  map[core.Duty]int // target's SigAgg.Aggregate invoked for the duty: reaches aggregation
+	aggOut    map[core.Duty]int // target's extra SigAgg subscriber: aggregate produced for the duty
+	bcast     map[core.Duty]int // any node's broadcaster got a signed object of the duty
 }
 
 type violation struct{ tag, sig, detail string }
@@ -128,9 +129,9 @@ func (t tracker) ParSigDBStoredExternal(d core.Duty, _ core.ParSignedDataSet, _ 
 	t.e.cnt.storedExt[d]++
 	t.e.mu.Unlock()
 }
-func (t tracker) SigAggAggregated(core.Duty, map[core.PubKey][]core.ParSignedData, error) {
+func (t tracker) SigAggAggregated(d core.Duty, _ map[core.PubKey][]core.ParSignedData, _ error) {
 	t.e.mu.Lock()
-	t.e.cnt.aggCalls++
+	t.e.cnt.aggCalls[d]++
 	t.e.mu.Unlock()
 }
 func (tracker) AggSigDBStored(core.Duty, core.SignedDataSet, error)             {}
@@ -145,13 +146,15 @@ func (e *env) snapshot() counters {
 	e.mu.Lock()
 	defer e.mu.Unlock()
 	s := e.cnt
-	s.exSub, s.storedExt = map[core.Duty]int{}, map[core.Duty]int{}
-	for k, v := range e.cnt.exSub {
-		s.exSub[k] = v
+	cp := func(m map[core.Duty]int) map[core.Duty]int {
+		o := map[core.Duty]int{}
+		for k, v := range m {
+			o[k] = v
+		}
+		return o
 	}
-	for k, v := range e.cnt.storedExt {
-		s.storedExt[k] = v
-	}
+	s.exSub, s.storedExt = cp(e.cnt.exSub), cp(e.cnt.storedExt)
+	s.aggCalls, s.aggOut, s.bcast = cp(e.cnt.aggCalls), cp(e.cnt.aggOut), cp(e.cnt.bcast)
 	return s
 }
 
@@ -230,17 +233,23 @@ func body(c *kernel.Ctx) {
 	cl := cluster.New(ctx, c.T, cfg)
 	e := &env{c: c, cl: cl, ctx: ctx, used: map[core.Duty]bool{}, matrix: map[string][]string{}, stats: map[string]int{}}
 	e.cnt.exSub, e.cnt.storedExt = map[core.Duty]int{}, map[core.Duty]int{}
+	e.cnt.aggCalls, e.cnt.aggOut, e.cnt.bcast = map[core.Duty]int{}, map[core.Duty]int{}, map[core.Duty]int{}
 	e.target = verifrt.Intn("cfg", n)
 	e.maxDly = 1 + verifrt.Intn("cfg", 200)
 	e.noise = verifrt.Intn("cfg", 3) != 0
 	startEpoch := eth2p0.Epoch(cfg.StartSlot / spe)
-	// fork schedule: genesis version, one fork long ago, one that the enumerated duties straddle
+	// fork schedule (the six named forks of the spec): four long ago, one activating in the run's second
+	// epoch and one shortly after, so that early cases lie exactly in a fork activation epoch
 	e.forks = []simbeacon.Fork{
+		{Epoch: 1, Version: eth2p0.Version{0x01, 0x01, 0x10, 0x20}},
+		{Epoch: 2, Version: eth2p0.Version{0x01, 0x02, 0x10, 0x20}},
+		{Epoch: 3, Version: eth2p0.Version{0x01, 0x03, 0x10, 0x20}},
 		{Epoch: startEpoch - 12, Version: eth2p0.Version{0x01, 0x00, 0x10, 0x20}},
-		{Epoch: startEpoch + 1 + eth2p0.Epoch(verifrt.Intn("cfg", 2)), Version: eth2p0.Version{0x02, 0x00, 0x10, 0x20}},
+		{Epoch: startEpoch + 1, Version: eth2p0.Version{0x02, 0x00, 0x10, 0x20}},
+		{Epoch: startEpoch + 2 + eth2p0.Epoch(verifrt.Intn("cfg", 2)), Version: eth2p0.Version{0x03, 0x00, 0x10, 0x20}},
 	}
 	cl.Chain.Forks = e.forks
-	e.exitEp = uint64(startEpoch) + 3
+	e.exitEp = uint64(startEpoch) - 1 // walk down from the past: the window-edge cases use the newest allowed epochs
 	cl.WireOpts = func(node int) []core.WireOption {
 		if node != e.target {
 			return nil
@@ -257,7 +266,7 @@ func body(c *kernel.Ctx) {
 			e.mu.Unlock()
 		}
 	}
-	cl.OnBcast = func(cluster.Broadcast) { e.mu.Lock(); e.cnt.bcast++; e.mu.Unlock() }
+	cl.OnBcast = func(b cluster.Broadcast) { e.mu.Lock(); e.cnt.bcast[b.Duty]++; e.mu.Unlock() }
 	for i := 0; i < n; i++ {
 		nd := cl.StartNode(i)
 		if i != e.target {
@@ -277,9 +286,9 @@ func body(c *kernel.Ctx) {
 			e.mu.Unlock()
 			return nil
 		})
-		nd.SigAgg.Subscribe(func(context.Context, core.Duty, core.SignedDataSet) error {
+		nd.SigAgg.Subscribe(func(_ context.Context, d core.Duty, _ core.SignedDataSet) error {
 			e.mu.Lock()
-			e.cnt.aggOut++
+			e.cnt.aggOut[d]++
 			e.mu.Unlock()
 			return nil
 		})
@@ -294,6 +303,14 @@ func body(c *kernel.Ctx) {
 	for i := len(cases) - 1; i > 0; i-- {
 		j := i - verifrt.Intn("w", i+1)
 		cases[i], cases[j] = cases[j], cases[i]
+	}
+	if verifrt.Intn("w", 2) == 1 {
+		// fork-sensitive cases first: they run while the fork activation epochs are still ahead
+		sort.SliceStable(cases, func(i, j int) bool {
+			fi := cases[i].alt == "wrong-fork-version" || strings.HasPrefix(cases[i].alt, "control")
+			fj := cases[j].alt == "wrong-fork-version" || strings.HasPrefix(cases[j].alt, "control")
+			return fi && !fj
+		})
 	}
 	verifrt.Sleep(time.Second)
 	for _, cd := range cases {
